@@ -82,6 +82,10 @@ var specialStrings = []struct{ name, s string }{
 	{"bmp", "héllo wörld 世界 �"},
 	{"jsonish", `{"a":[1,2,{"b":null}]}`},
 	{"numberish", "-0.0e+10"},
+	// text that already LOOKS escaped: a value holding the six characters backslash-u-0-0-3-c (JSON text inside a string,
+	// as HTML-safe encoders produce it), escape-like and surrogate-like sequences, a lone backslash at the end
+	{"escaped-looking", `{"html":"\u003cb\u003e \u0026amp; \n \" \\"} \ud83d \u00e9 \`},
+	{"percent-and-backslash-u", `100%\u003c%s\u003e%d`},
 }
 
 func allBytes() []byte {
